@@ -227,8 +227,11 @@ CATALOGUE = [
      "    slave.master_gear_ratio = slave.n_teeth/master.n_teeth",
      "    slave.master_gear_ratio = master.n_teeth/slave.n_teeth"),
     ('c10_self_locking_sin', 'C10', R,
-     "            friction_coefficient > master.pressure_angle.cos() * \\\n            master.helix_angle.tan()",
-     "            friction_coefficient > master.pressure_angle.cos() * \\\n            master.helix_angle.sin()"),
+     "            friction_coefficient > master.pressure_angle.cos() *\n            master.helix_angle.tan()",
+     "            friction_coefficient > master.pressure_angle.cos() *\n            master.helix_angle.sin()"),
+    ('c10_numpy_bool_self_locking', 'C10', R,
+     "        master.self_locking = bool(\n            friction_coefficient > master.pressure_angle.cos() *\n            master.helix_angle.tan()\n        )",
+     "        master.self_locking = (\n            friction_coefficient > master.pressure_angle.cos() *\n            master.helix_angle.tan()\n        )"),
     ('c10_gear_links_before_module_check', 'C10', R,
      "    if master.module is not None and slave.module is not None:\n        if master.module != slave.module:",
      "    master.drives = slave\n    slave.driven_by = master\n    if master.module is not None and slave.module is not None:\n        if master.module != slave.module:"),
